@@ -345,6 +345,35 @@ def predicates(ctx: Ctx) -> None:
             if bad:
                 ctx.fail("coded-gradient:Camelback:integer-position", f"Camelback at {xi} given as a {np.dtype(dt).name} "
                          f"array: {bad}", {"x": xi, "dtype": np.dtype(dt).name})
+    # points with coordinates that are exactly zero (the box centre, an axis, -0.0): every built-in surface is
+    # differentiable there (the Schwefel term -x sin(sqrt|x|) has derivative 0 at 0), so gradient, combined call and Hessian
+    # are finite numbers, and the gradient is the derivative — for Schwefel at a zero coordinate to the accuracy a central
+    # difference has at that kink (|f'(0) - cd| <= sin(sqrt(h)) ~ 1e-3)
+    for surf, name, dims in ((cam, "Camelback", (2,)), (sch, "Schwefel", (2, 3)), (quad, "Quadratic", (2, 3))):
+        for d in dims:
+            for _k in range(ctx.scale(4, 12)):
+                x = np.array([rng.choice([0.0, -0.0, rng.uniform(-1.5, 1.5)]) for _q in range(d)])
+                if not np.any(x == 0.0):
+                    x[rng.randrange(d)] = 0.0
+                ctx.stats.case({"pred": "zero-coordinate", "surface": name, "x": x.tolist()}, True)
+                try:
+                    with np.errstate(all="ignore"):
+                        g = np.asarray(surf.gradient(x.copy()), dtype=float)
+                        fv, fg = surf.function_gradient(x.copy())
+                        Hm = np.asarray(surf.hessian(x.copy()), dtype=float)
+                except Exception as e:  # noqa: BLE001
+                    ctx.fail(f"derivative-at-zero-coordinate:{name}", f"{name} raised {type(e).__name__} at {x.tolist()}: {e}",
+                             {"surface": name, "x": x.tolist(), "zero": True})
+                    continue
+                ref = richardson_grad(surf.function, x, h=1e-3)
+                okg = np.all(np.isfinite(g)) and np.all(np.isfinite(np.asarray(fg, dtype=float))) and np.isfinite(float(fv)) \
+                    and np.all(np.isfinite(Hm))
+                tol = np.where(x == 0.0, 5e-2, 1e-5) if name == "Schwefel" else np.full(d, 1e-5)
+                if not okg or np.any(np.abs(g - ref) > tol * np.maximum(1.0, np.abs(ref))):
+                    ctx.fail(f"derivative-at-zero-coordinate:{name}",
+                             f"{name} at {x.tolist()} (a coordinate exactly zero): gradient {g.tolist()}, combined call "
+                             f"{np.asarray(fg, dtype=float).tolist()}, Hessian finite: {bool(np.all(np.isfinite(Hm)))}; the derivative "
+                             f"of the coded function there is {ref.tolist()}", {"surface": name, "x": x.tolist(), "zero": True})
     # what was returned for one point stays the derivative at that point after the surface is evaluated elsewhere
     # (a caller keeps the Hessians / gradients of several stationary points side by side)
     for _ in range(ctx.scale(10, 60) * deep):
@@ -471,6 +500,10 @@ def predicates(ctx: Ctx) -> None:
         a = np.array([[rng.gauss(0, 1) for _ in range(n)] for _ in range(n)])
         q, _r = np.linalg.qr(a)
         eigs = sorted(rng.choice([-1, 1, 1, 1]) * rng.uniform(1e-3, 2.0) for _ in range(n))
+        singular = rng.random() < 0.25
+        if singular:
+            # a flat direction: one eigenvalue exactly zero, the others positive — not positive definite, hence no minimum
+            eigs = sorted([0.0] + [abs(e) for e in eigs[1:]])
         Hm = (q * np.array(eigs)) @ q.T
         Hm = (Hm + Hm.T) / 2
         from topsearch.potentials.potential import Potential
@@ -484,6 +517,11 @@ def predicates(ctx: Ctx) -> None:
         pot, co = Hs(), _Coords(n, False)
         ctx.stats.case({"pred": "classifier-spectrum", "eigs": eigs}, True)
         neg = sum(1 for e in eigs if e < 0)
+        if singular:
+            if abs(float(np.linalg.eigvalsh(Hm)[0])) < 1e-12 and pot.check_valid_minimum(co):
+                ctx.fail("classifier-disagrees:minimum:singular", f"check_valid_minimum = True for the spectrum {eigs}: the Hessian has "
+                         f"a zero eigenvalue, it is not positive definite", {"eigs": eigs})
+            continue
         if pot.check_valid_minimum(co) != (neg == 0):
             ctx.fail("classifier-disagrees:minimum", f"check_valid_minimum = {pot.check_valid_minimum(co)} for spectrum {eigs}", {"eigs": eigs})
         if pot.check_valid_ts(co) != (neg == 1):
